@@ -480,6 +480,68 @@ def module_object_options(ctx, stream, n):
                 return
 
 
+
+SPELLINGS = ["{p}/", "{p}//", "{d}//{b}", "{d}/./{b}", "PATH:{p}", "PATH:{p}/"]
+
+
+def _spelling_case(case):
+    """the same directories spelled differently (trailing or doubled separators, a `.` segment, pathlib.Path objects)
+    denote the same root_path / module_path: the architecture must not depend on the spelling"""
+    import os
+    from pathlib import Path
+
+    from ..impl import err_kind, get_evaluable_architecture, graph_snapshot
+
+    tree, mp, sr, sm, kw = case
+
+    def spell(p, form):
+        d, b = os.path.split(p)
+        t = form.format(p=p, d=d, b=b)
+        return Path(t[5:]) if t.startswith("PATH:") else t
+
+    with sc.write_project(tree) as proj:
+        ref = sc.real_scan(proj, "proj", mp, **kw)
+        try:
+            ev = get_evaluable_architecture(spell(proj.path("proj"), sr) if sr else proj.path("proj"),
+                                            spell(proj.path(mp), sm) if sm else proj.path(mp), **kw)
+            got = sc.snapshot_str(*graph_snapshot(ev))
+        except Exception as e:  # noqa: BLE001
+            got = "ERR:" + err_kind(e)
+    return ref, got
+
+
+def path_spellings(ctx, stream, n):
+    rng = ctx.rng("spellings")
+    cases = []
+    while len(cases) < n:
+        tree = sc.gen_tree(rng)
+        sc.fill_sources(rng, tree, externals=True)
+        dirs = sorted(p for p, v in tree.items() if v is None)
+        mp = "proj" if rng.random() < 0.6 else rng.choice(dirs)
+        sr = rng.choice(SPELLINGS + [None])
+        sm = rng.choice(SPELLINGS + [None])
+        if sr is None and sm is None:
+            continue
+        kw = {}
+        if rng.random() < 0.3:
+            kw["level_limit"] = rng.randint(1, 2)
+        if rng.random() < 0.3:
+            kw["exclude_external_libraries"] = False
+        cases.append((tree, mp, sr, sm, kw))
+    res = pmap(_spelling_case, cases, ctx.jobs, chunk=10)
+    for (tree, mp, sr, sm, kw), (ref, got) in zip(cases, res):
+        stream.evaluations += 1
+        stream.count(f"root:{sr} module:{sm}")
+        stream.nontrivial.add(digest((sorted(tree.items()), mp, sr, sm, sorted(kw.items()))))
+        if ref != got:
+            ctx.violations.append({"kind": "property-violation",
+                                   "what": "the architecture depends on how root_path / module_path are spelled (same directories)",
+                                   "files": tree, "module_path": mp, "root_spelling": sr, "module_spelling": sm, "options": kw,
+                                   "plain_spelling": ref, "other_spelling": got})
+            if len(ctx.violations) >= 3:
+                return
+
+
 def coverage_note(ctx):
     src = "X = Y = E = 1\n" + "".join(sc.place("import os", [p]) for p in sc.POS_NAMES)
     reached = sc.positions_reached(src)
@@ -530,5 +592,15 @@ def run(ctx: Ctx, aspect="C02"):
     if aspect == "C04" and not ctx.violations:
         s = Stream(ctx, "module-object entry point vs path entry point under complete option sets (exclusions, regex exclusions, externals, external patterns, level limit; package and plain-file module objects)")
         module_object_options(ctx, s, ctx.size(300, 6000))
+        s.finish()
+    if aspect == "C04" and not ctx.violations:
+        s = Stream(ctx, "root_path / module_path spelled with trailing or doubled separators, `.` segments, pathlib.Path objects vs the plain spelling")
+        path_spellings(ctx, s, ctx.size(300, 6000))
+        s.finish()
+    if aspect == "C04" and not ctx.violations:
+        from . import c08
+
+        s = Stream(ctx, "modules and imports under exclusion patterns drawn from the tree's own names (several sibling directories excluded at once; shared with C08)")
+        c08.tree_stream(ctx, s, ctx.size(800, 8000), ctx.rng("c04-exclusions"))
         s.finish()
     return RULE
